@@ -13,4 +13,7 @@ MUTANTS = [
  (F, 'current_combination=current_combination + [combination]', 'current_combination=[combination] + current_combination', None),
  # harmless
  (F, 'next_idx = start_idx + size', 'next_idx = size + start_idx', None),
+ (F, '        return {modal: group[0] for group in combination for modal in group}', '        return {modal: group[-1] for group in combination for modal in group}', ['BaseCarver._combination_formatter']),
+ (F, '        return {modal: group[0] for group in combination for modal in group}', '        return {group[0]: modal for group in combination for modal in group}', ['BaseCarver._combination_formatter']),
+ (F, '        return {modal: group[0] for group in combination for modal in group}', '        return {modal: combination[0][0] for group in combination for modal in group}', ['BaseCarver._combination_formatter']),
 ]
